@@ -1773,14 +1773,10 @@ class LeCreditBasedChannel(utils.EventEmitter):
             self.in_sdu += pdu
 
         # Check if the SDU is complete
-        if self.in_sdu_length == 0:
-            # We don't know the size yet, check if we have received the header to
-            # compute it
-            if len(self.in_sdu) >= 2:
-                self.in_sdu_length = struct.unpack_from('<H', self.in_sdu, 0)[0]
-        if self.in_sdu_length == 0:
-            # We'll compute it later
+        if len(self.in_sdu) < 2:
+            # We don't know the size yet, we'll compute it later
             return
+        self.in_sdu_length = struct.unpack_from('<H', self.in_sdu, 0)[0]
         if len(self.in_sdu) < 2 + self.in_sdu_length:
             # Not complete yet
             logger.debug(
